@@ -85,6 +85,10 @@ def main(prop, tier, seed):
                         shapes=nshape, by_kind=by_kind, depth='<=3 (quick) / <=4 (thorough)', seed=seed)]
     if prop == 'C09':
         errpath.safe(errpath.add_enumerators, rep, 'C09.errpath')
+    if prop == 'C10':
+        from props import errpath
+        errpath.safe(errpath.add_finders, rep, 'C10.errpath')
+        errpath.safe(errpath.add_explain_bounded, rep, 'C10.errpath')
     rep.extra['explanation'] = ('each obligation is a z3 query over all objects x and all 32-bit draws r on the text captured from the real generator; '
                                 'node shapes = induction step, composed shapes = bounded composition check')
     return rep.finish()
